@@ -15,6 +15,11 @@ CODE = {"": 0, "none": 0, "ok": 1, "eof": 2, "closed": 3, "deadline": 4, "alert"
         "netclosed": 7, "other": 8, "stuck": 9}
 CLOSE_CLASS = {"eof", "closed", "netclosed"}
 
+# regression corpus: the placements that failed before the fixes of F-A (sendCloseNotify / sync.Once)
+# and F-B (Conn.Write maps Canceled-while-closed to ErrConnClosed); they run first and must pass
+CORPUS = ["v12/simul/client/6/1/0/0", "v13/close/client/9/2/1/0",
+          "v13/simul/server/10/3/0/0", "dual13/close/server/12/2/1/0"]
+
 SITE_CN2 = "conn.go close / processIncomingPacket (close_notify reply)"
 SIG_CN2 = {"monitor": "close_notify twice",
            "scenario": "application Close racing the read loop's reply to a received close_notify"}
@@ -287,6 +292,7 @@ def run(chk):
     thorough = chk.tier == "thorough"
     env = {"VERIF_SEED": chk.seed, "VERIF_TIER": chk.tier}
     legs = []   # (name, test, env, race, timeout)
+    legs.append(("corpus", "^TestVerifC16E2E$", {"VERIF_C16_ONLY": ";".join(CORPUS)}, False, 300))
     legs.append(("e2e", "^TestVerifC16E2E$", {"VERIF_C16_REPS": 20 if thorough else 1}, False, 1800))
     legs.append(("stress", "^TestVerifC16Stress$", {"VERIF_C16_ITERS": 3000 if thorough else 60}, False, 1800))
     if thorough:
@@ -357,6 +363,12 @@ def run(chk):
                 report(kind, what, r, race)
         e2e = [r for r in obs if r["kind"] == "c16"]
         st = [r for r in obs if r["kind"] == "stress"]
+        if name == "corpus":
+            reached = [r for r in e2e if (r["sc"]["event"] == "simul" and r["held_reply"]) or
+                       (r["sc"]["event"] == "close" and r["wr_pend_x"])]
+            if len(e2e) != len(CORPUS) or len(reached) != len(CORPUS):
+                chk.broken("regression corpus: %d of %d scenarios ran, %d reached their placement"
+                           % (len(e2e), len(CORPUS), len(reached)), o)
         if e2e:
             all_e2e.append((name, e2e))
             nt = [r for r in e2e if r["sc"]["event"] != "none" and not r.get("panic")]
@@ -433,7 +445,8 @@ def run(chk):
             chk.broken("proof obligation Properties/C16.v no longer checks (%s)" % where, out)
     chk.finish(
         level="proof",
-        rule="e2e: one run per (variant in v12/v12psk/v13/dual-stack client->1.2/1.2->dual-stack server/dual-stack->1.3, "
+        rule="corpus: the former failing placements of the two fixed findings (two close_notify records; DTLS 1.3 "
+             "Write woken with context.Canceled) run first and must pass. e2e: one run per (variant in v12/v12psk/v13/dual-stack client->1.2/1.2->dual-stack server/dual-stack->1.3, "
              "side, step index k = datagram deliveries of the scripted handshake+data phase, event): Close with 1-4 "
              "concurrent callers (also with a Write blocked in the socket, and with Read+Write issued during the "
              "handshake), fatal alert from the peer, SetDeadline in the past with blocked Read/Write, cancelled "
